@@ -982,11 +982,16 @@ func checkCookieFlags(r *Report, p *Prog, rule string) {
 	ho, ok := one("HttpOnly")
 	r.Check(ok && strings.HasSuffix(ho, ".HTTPOnly"), rule, p.FnName(cs)+": session cookie HttpOnly follows the provider setting", p.Pos(cs.Pos()), ho, "HttpOnly is "+ho)
 	if len(lf["Secure"]) == 1 {
-		leaves := boolLeaves(lf["Secure"][0].Val, map[ssa.Value]bool{})
+		secVal, secHome := lf["Secure"][0].Val, lf["Secure"][0].Parent()
+		// the flag computed by the caller and handed to the cookie constructor in a content struct
+		if cv := paramFieldInCaller(cs, secHome, secVal); cv != nil {
+			secVal, secHome = cv, cs
+		}
+		leaves := boolLeaves(secVal, map[ssa.Value]bool{})
 		var ls []string
 		hasCfg, hasScheme := false, false
 		for _, l := range leaves {
-			s := apInCaller(fc, l, lf["Secure"][0].Parent())
+			s := apInCaller(fc, l, secHome)
 			ls = append(ls, s)
 			if strings.HasSuffix(s, ".Secure") {
 				hasCfg = true
@@ -995,7 +1000,27 @@ func checkCookieFlags(r *Report, p *Prog, rule string) {
 				hasScheme = true
 			}
 		}
-		r.Check(hasCfg && hasScheme, rule, p.FnName(cs)+": session cookie Secure = provider setting OR request scheme is https", p.InstrPos(lf["Secure"][0]), strings.Join(ls, " | "), "Secure is computed from "+strings.Join(ls, " | "))
+		// ... joined by OR: either of the two alone makes the cookie Secure
+		orOK := false
+		if hasCfg && hasScheme {
+			sfc := a.Ctx(secHome)
+			sfc.ensureConds()
+			f := sfc.Formula(secVal)
+			path := a.B.True // (the formula of a merged value carries the condition of the path that leads to the merge)
+			if in, ok := secVal.(ssa.Instruction); ok && in.Block() != nil {
+				path = sfc.Cond(in.Block())
+			}
+			nOK := 0
+			for _, nm := range a.B.Support(f) {
+				if strings.HasSuffix(nm, ".Secure") || strings.Contains(nm, "URL.Scheme") && strings.Contains(nm, `"https"`) {
+					if a.B.Implies(a.B.And(path, a.B.Var(nm)), f) {
+						nOK++
+					}
+				}
+			}
+			orOK = nOK >= 2
+		}
+		r.Check(hasCfg && hasScheme && orOK, rule, p.FnName(cs)+": session cookie Secure = provider setting OR request scheme is https", p.InstrPos(lf["Secure"][0]), strings.Join(ls, " | "), "Secure is not (provider setting OR https request); it is computed from "+strings.Join(ls, " | "))
 	} else {
 		r.Bad(rule, p.FnName(cs)+": session cookie Secure", p.Pos(cs.Pos()), "Secure attribute not set")
 	}
@@ -1114,18 +1139,25 @@ func checkLifetime(r *Report, p *Prog, rule string) {
 	}
 	enc := p.MustFunc("samlsp", "JWTTrackedRequestCodec", "Encode")
 	a := NewAnalysis(p)
-	fc := a.Ctx(enc)
 	r.Fn(p.FnName(enc))
-	lf := litFields(enc, jwtPath, "RegisteredClaims")
+	lf := litFieldsDeep(p, enc, jwtPath, "RegisteredClaims")
 	cons := p.FnName(enc) + ": tracking token expires at TimeNow() + 1*MaxAge"
 	if len(lf["ExpiresAt"]) != 1 {
 		r.Bad(rule, cons, p.Pos(enc.Pos()), "ExpiresAt not set exactly once")
 		return
 	}
 	v := lf["ExpiresAt"][0].Val
+	home := lf["ExpiresAt"][0].Parent()
 	if c, ok := v.(*ssa.Call); ok && c.Call.StaticCallee() != nil && strings.HasSuffix(c.Call.StaticCallee().String(), "NewNumericDate") {
-		tt := fc.TimeTermOf(c.Call.Args[0])
-		src := valueSources(p, enc, tt.BaseV, 0, map[string]bool{})
+		tt := a.Ctx(home).TimeTermOf(c.Call.Args[0])
+		base := tt.BaseV
+		if home != enc {
+			// the claims are built by a constructor helper: the instant it is handed, in the encoder's terms
+			if cv := paramFieldInCaller(enc, home, base); cv != nil {
+				base = cv
+			}
+		}
+		src := valueSources(p, enc, base, 0, map[string]bool{})
 		ok := len(src) == 1 && src[0] == "call through saml.TimeNow" && tt.Const == 0 && !tt.Opaque && len(tt.Coef) == 1
 		for k, cf := range tt.Coef {
 			if !strings.HasSuffix(k, ".MaxAge") || cf != 1 {
@@ -1318,4 +1350,58 @@ func checkIDPInitiatedDefault(r *Report, p *Prog, rule string) {
 func lastResultIsBool(f *ssa.Function) bool {
 	rs := f.Signature.Results()
 	return rs.Len() >= 2 && isBoolType(rs.At(rs.Len()-1).Type())
+}
+
+// paramFieldInCaller: v, in the helper home that caller calls at exactly one site, is (a field of) one of home's
+// parameters; the value the caller passes for it: the argument itself, or, for a field of a struct argument built as a
+// literal in the caller, what the literal stores into the field. nil when it cannot be told.
+func paramFieldInCaller(caller, home *ssa.Function, v ssa.Value) ssa.Value {
+	if home == nil || home == caller {
+		return nil
+	}
+	var site *ssa.Call
+	n := 0
+	for _, b := range caller.Blocks {
+		for _, in := range b.Instrs {
+			if c, ok := in.(*ssa.Call); ok && c.Call.StaticCallee() == home {
+				site = c
+				n++
+			}
+		}
+	}
+	if n != 1 {
+		return nil
+	}
+	argOf := func(prm ssa.Value) ssa.Value {
+		for i, q := range home.Params {
+			if ssa.Value(q) == prm && i < len(site.Call.Args) {
+				return site.Call.Args[i]
+			}
+		}
+		return nil
+	}
+	switch x := v.(type) {
+	case *ssa.Parameter:
+		return argOf(x)
+	case *ssa.Field:
+		if arg := argOf(x.X); arg != nil {
+			if ld, ok := arg.(*ssa.UnOp); ok && ld.Op == token.MUL {
+				return literalFieldValue(ld.X, []int{x.Field}, 0)
+			}
+		}
+	case *ssa.UnOp:
+		if fa, ok := x.X.(*ssa.FieldAddr); ok && x.Op == token.MUL {
+			// the parameter spilled to a local
+			if al, ok := fa.X.(*ssa.Alloc); ok {
+				if sv := wholeStore(al); sv != nil {
+					if arg := argOf(sv); arg != nil {
+						if ld, ok := arg.(*ssa.UnOp); ok && ld.Op == token.MUL {
+							return literalFieldValue(ld.X, []int{fa.Field}, 0)
+						}
+					}
+				}
+			}
+		}
+	}
+	return nil
 }
